@@ -5,10 +5,10 @@ use common_lang_types::{
     WithEmbeddedLocation, WithLocationPostfix,
 };
 use isograph_lang_types::{
-    ClientScalarSelectableDirectiveSet, DefinitionLocation, DefinitionLocationPostfix,
-    EmptyDirectiveSet, LoadableDirectiveParameters, ObjectSelection, ObjectSelectionDirectiveSet,
-    ScalarSelection, ScalarSelectionDirectiveSet, Selection, SelectionSet, SelectionType,
-    SelectionTypePostfix, from_isograph_field_directives,
+    ArgumentKeyAndValue, ClientScalarSelectableDirectiveSet, DefinitionLocation,
+    DefinitionLocationPostfix, EmptyDirectiveSet, LoadableDirectiveParameters, ObjectSelection,
+    ObjectSelectionDirectiveSet, ScalarSelection, ScalarSelectionDirectiveSet, Selection,
+    SelectionSet, SelectionType, SelectionTypePostfix, from_isograph_field_directives,
 };
 use isograph_schema::{
     BorrowedObjectSelectable, ClientFieldVariant, ClientScalarSelectable, CompilationProfile,
@@ -402,7 +402,6 @@ fn scalar_client_defined_field_ast_node<TCompilationProfile: CompilationProfile>
                     root_refetched_paths,
                     reader_imports,
                     &client_scalar_selectable_variable_context,
-                    parent_variable_context,
                 )
             }
         },
@@ -435,7 +434,6 @@ fn user_written_variant_ast_node<TCompilationProfile: CompilationProfile>(
     root_refetched_paths: &RefetchedPathsMap,
     reader_imports: &mut ReaderImports,
     client_scalar_selectable_variable_context: &VariableContext,
-    initial_variable_context: &VariableContext,
 ) -> String {
     let alias = scalar_field_selection.name_or_alias().item;
     let indent_1 = "  ".repeat(indentation_level as usize);
@@ -456,17 +454,25 @@ fn user_written_variant_ast_node<TCompilationProfile: CompilationProfile>(
         &paths_to_refetch_field_in_client_scalar_selectable,
     );
 
+    // The runtime builds the client field's variables from these arguments alone
+    // (generateChildVariableMap), so every variable the client field declares must be
+    // listed: the ones the selection passes (in terms of the parent's variables), and for
+    // the ones it omits, the default value (or null) that the merged selection set used.
+    // That is exactly the client field's variable context.
     let arguments = get_serialized_field_arguments(
-        // Note: this is confusing. We're using the parent context to determine the
-        // arguments **to** the client field, and the child context (above) for the
-        // refetch paths **within** the client field.
-        &transform_arguments_with_child_context(
-            scalar_field_selection
-                .arguments
-                .iter()
-                .map(|x| x.item.into_key_and_value()),
-            initial_variable_context,
-        ),
+        &nested_client_scalar_selectable
+            .arguments
+            .iter()
+            .filter_map(|variable_definition| {
+                client_scalar_selectable_variable_context
+                    .0
+                    .get(&variable_definition.name.item)
+                    .map(|value| ArgumentKeyAndValue {
+                        key: variable_definition.name.item.unchecked_conversion(),
+                        value: value.clone(),
+                    })
+            })
+            .collect::<Vec<_>>(),
         indentation_level + 1,
     );
 
